@@ -202,7 +202,7 @@ type World struct {
 	/* Transcript pieces for oracles. */
 	delivered int /* Number of entered lines completely delivered to some shell. */
 	lastGS    []quiesce.G
-	baseline  int
+	old       map[string]bool /* Goroutines that existed before this world. */
 	genNotice genNotices
 	c11       c11State
 	c03       map[int]*c03State
@@ -231,7 +231,10 @@ func New(p *Profile) *World {
 	w.root, w.rootCancel = context.WithCancel(context.Background())
 	current = w
 	iobroker.VerifHook = hook
-	w.baseline = len(quiesce.Dump())
+	w.old = map[string]bool{}
+	for _, g := range quiesce.Dump() {
+		w.old[g.ID] = true /* Leftovers of earlier executions are not ours. */
+	}
 	go func() { w.doRet <- w.b.Do(w.root) }()
 	w.lastGS = quiesce.Wait()
 	return w
@@ -349,7 +352,7 @@ func (w *World) Enabled() []Event {
 				}
 			}
 		}
-		if p.Cancel && !a.cancelled && !a.returned {
+		if (p.Cancel || w.shutdown) && !a.cancelled && !a.returned {
 			evs = append(evs, Event{Op: "cancel", A: a.id})
 		}
 	}
@@ -502,7 +505,11 @@ func (w *World) start(spec int) {
 		halves: map[string]*half{},
 	}
 	a.addr = fmt.Sprintf("addr-a%d", a.id)
-	cctx, cancel := context.WithCancel(w.root)
+	/* Not a child of the root context: cancellation of a context tree
+	reaches its children in map order, i.e. at random.  Shutdown cancels
+	Do's context; the streams' contexts are then cancelled by explicit
+	cancel events, in every order. */
+	cctx, cancel := context.WithCancel(context.Background())
 	a.ctx = context.WithValue(cctx, attemptKey{}, a)
 	a.cancel = cancel
 	if "in" == s.Kind || "io" == s.Kind {
@@ -671,7 +678,7 @@ func (w *World) Close() int {
 	}
 	/* Everything must end by itself now. */
 	gs := quiesce.Wait()
-	leaked := brokerGoroutines(gs, false)
+	leaked := w.brokerGoroutines(gs, false)
 	close(stop)
 	dwg.Wait()
 	if !w.doReturned {
@@ -693,10 +700,10 @@ func (w *World) Close() int {
 
 // brokerGoroutines returns the goroutines with frames inside the broker,
 // optionally not counting those of Do.
-func brokerGoroutines(gs []quiesce.G, allowDo bool) []quiesce.G {
+func (w *World) brokerGoroutines(gs []quiesce.G, allowDo bool) []quiesce.G {
 	var out []quiesce.G
 	for _, g := range gs {
-		if !strings.Contains(g.Frames, "internal/iobroker.") {
+		if w.old[g.ID] || !strings.Contains(g.Frames, "internal/iobroker.") {
 			continue
 		}
 		if allowDo && (strings.Contains(g.Frames, "iobroker.(*Broker).Do") ||
